@@ -193,8 +193,20 @@ def make_pk(rng, sid, user, kname, alg, attack):
         k = rng.choice([1, 1, 2, rng.randint(1, max(1, len(sb) - 1)), len(sb)])
         return pk_body(user, svc, alg, blob, True, sstr(name) + sstr(sb[:len(sb) - k]))
     if attack == "bitflip_sig":
-        i = rng.randrange(len(sb))
-        sb2 = sb[:i] + bytes([sb[i] ^ (1 << rng.randrange(8))]) + sb[i + 1:]
+        for _ in range(50):
+            i = rng.randrange(len(sb))
+            sb2 = sb[:i] + bytes([sb[i] ^ (1 << rng.randrange(8))]) + sb[i + 1:]
+            if not name.startswith(b"ecdsa"):
+                break
+            # ECDSA blobs hold two mpints. A flipped length field of 4 KiB..1 MiB makes Message zero-pad the
+            # short read and util.inflate_long (quadratic) then occupies the server's thread for minutes to
+            # hours: a denial of service that is not C14's subject (reported separately) — not generated.
+            rr = Rd(sb2, lenient=True)
+            l1 = int.from_bytes(sb2[:4], "big")
+            rr.string()
+            l2 = int.from_bytes(rr.d[rr.p:rr.p + 4].ljust(4, b"\0"), "big")
+            if not (4096 < l1 < (1 << 20) or 4096 < l2 < (1 << 20)):
+                break
         return pk_body(user, svc, alg, blob, True, sstr(name) + sstr(sb2))
     if attack == "trunc_packet":
         whole = pk_body(user, svc, alg, blob, True, sig)
@@ -359,6 +371,7 @@ def judge_episode(ctx, ep, sid):
                 blob = rd.string()
                 info["sig_attached"] = flag
                 if flag:
+                    rd.lenient = True  # framing damage in the signature field is not an invalid signature
                     sigfield = rd.string()
                     data = session_blob(sid, user, rq["service"], alg, blob)
                     ctx.count("independent_sig_verifications")
